@@ -1353,6 +1353,23 @@ def check_regex(ctx, key):
     return {"kind": "regex", "key": key}, f"CRegex {cs(key)} {st} {c_ostr(pn)}"
 
 
+def correspond(ctx, name, cases, terms, check_fn="check_case"):
+    """ctx.correspond with smaller shards and at most 4 coqc processes at a time (the trees make the generated
+    files large; 16 parallel shards were killed for memory on the shared machine)"""
+    import time
+    import common
+    t0 = time.time()
+    bad, err = common.eval_cases("Corr_C14", terms, ctx.workdir / "coq", check_fn=check_fn, shard=250, jobs=4)
+    ctx.traces += len(terms) if not err else 0
+    ctx.count(f"corr:{name}:cases", len(terms))
+    ctx.dist[f"corr:{name}:secs"] = round(time.time() - t0, 1)
+    if err:
+        ctx.corr_errors.append(f"{name}: {err}")
+    for i in sorted(bad):
+        ctx.mismatch(name, cases[i])
+    return bad
+
+
 def run(ctx: Ctx):
     rng = ctx.rng
     q = ctx.quick()
@@ -1437,18 +1454,17 @@ def run(ctx: Ctx):
             add(misc_cases, misc_terms, check_ft(ctx, *gen_ft(rng)))
 
         if ctx.model_ok:
-            # the damaged stream: drop the cases on which the MODEL says "not modelled" is not possible from here,
-            # so they are included and a disagreement is reported by the correspondence itself
-            ctx.correspond("extract_argument_structure + name regexes on real parse trees vs Extract.extract",
-                           "Corr_C14", ex_cases, ex_terms)
-            ctx.correspond("extract_argument_structure on damaged trees vs Extract.extract", "Corr_C14",
-                           dm_cases, dm_terms, check_fn="check_case_damaged")
-            ctx.correspond("STEPS_NAME_PATTERN / PARENT_NAME_PATTERN vs Extract.steps_name / parent_name",
-                           "Corr_C14", rx_cases, rx_terms)
-            ctx.correspond("prepare_workflow (+ reconcile gate) vs Extract.prepare_workflow", "Corr_C14",
-                           wf_cases, wf_terms)
-            ctx.correspond("watch lists of prepare_resource_function / prepare_function_test vs model", "Corr_C14",
-                           misc_cases, misc_terms)
+            correspond(ctx, "extract_argument_structure + name regexes on real parse trees vs Extract.extract",
+                       ex_cases, ex_terms)
+            # damaged trees: where the MODEL says the real code formats a lark Tree into a key (its repr is not
+            # modelled) the case is not compared (check_case_damaged)
+            correspond(ctx, "extract_argument_structure on damaged trees vs Extract.extract",
+                       dm_cases, dm_terms, check_fn="check_case_damaged")
+            correspond(ctx, "STEPS_NAME_PATTERN / PARENT_NAME_PATTERN vs Extract.steps_name / parent_name",
+                       rx_cases, rx_terms)
+            correspond(ctx, "prepare_workflow (+ reconcile gate) vs Extract.prepare_workflow", wf_cases, wf_terms)
+            correspond(ctx, "watch lists of prepare_resource_function / prepare_function_test vs model",
+                       misc_cases, misc_terms)
     finally:
         world_teardown()
 
